@@ -7,6 +7,7 @@ import SLModel.Lemmas.AggsStats
 import SLModel.Lemmas.AggsBuckets
 import SLModel.Lemmas.AggsTree
 import SLModel.Lemmas.AggsTopK
+import SLModel.Lemmas.AggsCalendar
 /-!
 # C12 — aggregations are exact and independent of segmentation
 
@@ -17,23 +18,21 @@ every limit and threshold applied once to the global counts.  All statements qua
 aggregation tree (any depth), every document list and every segmentation of it; the key atoms
 are any type with a strict total order (`String` in the driver: `stringLt_strictTotal`).
 
-**Full statement (still false of the code in one request class, see
-`date_histogram_fill_drops_offset`):**
+**Full statement, proved (`segmentation_independent`):**
 
 ```
 theorem segmentation_independent (a : Agg φ κ) (s₀ : List (Doc φ κ)) (rest : List (List (Doc φ κ))) :
     run a (s₀ :: rest) = some (Spec.agg a (s₀ ++ rest.flatten))
 ```
 
-What is proved is `segmentation_independent_partial`: the same equation under the decidable
-hypothesis `a.safe` on the *request*, which since the repairs 0d5edb4 (thresholds after the
-merge), a3ebc01 (top_hits window once), 71fb08f (composite histogram over i64) and a754ee4
-(quarter of 31 May) has shrunk to one condition: no date_histogram node combines a calendar
-interval, a non-zero offset and (extended or hard) bounds — there the bounds fill of the code
-still drops the offset (open finding `date_histogram.calendar-offset-fill`).  Every terms
-`size` / `min_doc_count`, rare_terms, histogram and date_histogram `min_doc_count`, top_hits
-`from`, composite source is now covered.  An explicit terms `shard_size` (per-segment truncation,
-approximate by design) is outside the model and outside the claim.
+No hypothesis on the request is left: the repairs 0d5edb4 (thresholds after the merge), a3ebc01
+(top_hits window once), 71fb08f (composite histogram over i64), a754ee4 (quarter of 31 May) and
+0b763bf (the bounds fill of date_histogram keeps the offset) removed every request class on
+which the mechanism and the reference differed.  An explicit terms `shard_size` (per-segment
+truncation, approximate by design) is outside the model and outside the claim.
+`date_histogram_keys_aligned` adds what makes the reference's date_histogram buckets the right
+ones: every bucket key, populated or created from the bounds, is a unit start shifted by the
+offset (`k - offset = truncate (k - offset)`; a multiple of the step for fixed intervals).
 
 The mechanism of the code *before* the repairs lives in `Core/AggsLegacy.lean`; the
 `legacy_…` theorems below are the kernel-checked witnesses of the original defects, stated about
@@ -73,44 +72,41 @@ theorem vals_append (xs ys : List Rat) :
   exact (List.Perm.append (perm_sortBy ratLt xs) (perm_sortBy ratLt ys)).symm
 
 mutual
-/-- for a safe request, the intermediate of `xs ++ ys` is the merge of the intermediates of `xs`
+/-- the intermediate of `xs ++ ys` is the merge of the intermediates of `xs`
 and of `ys` — at every depth of the tree -/
 theorem collect_append (h : StrictTotal (KOrd.lt (κ := κ))) :
-    ∀ (a : Agg φ κ), a.safe = true → ∀ xs ys : List (Doc φ κ),
+    ∀ (a : Agg φ κ), ∀ xs ys : List (Doc φ κ),
       collect a (xs ++ ys) = merge a (collect a xs) (collect a ys)
-  | .stats f m, _, xs, ys => by
+  | .stats f m, xs, ys => by
     simp only [collect, merge, List.flatMap_append, collectStats_append]
-  | .extStats f m, _, xs, ys => by
+  | .extStats f m, xs, ys => by
     simp only [collect, merge, List.flatMap_append, collectStats_append]
-  | .valueCount f m, _, xs, ys => by
+  | .valueCount f m, xs, ys => by
     simp only [collect, merge, List.flatMap_append, List.length_append]
-  | .cardKw f m, _, xs, ys => by
+  | .cardKw f m, xs, ys => by
     simp only [collect, merge, List.flatMap_append, partSet_append h]
-  | .cardNum f m, _, xs, ys => by
+  | .cardNum f m, xs, ys => by
     simp only [collect, merge, List.flatMap_append, List.map_append, partSet_append h]
-  | .percentiles f m ps, _, xs, ys => by
+  | .percentiles f m ps, xs, ys => by
     simp only [collect, merge, List.flatMap_append, ← vals_append]
-  | .ranks f m ts, _, xs, ys => by
+  | .ranks f m ts, xs, ys => by
     simp only [collect, merge, List.flatMap_append, ← vals_append]
-  | .topHits size fromN sort, _, xs, ys => by
+  | .topHits size fromN sort, xs, ys => by
     simp only [collect, merge, hitsKeep_eq, List.map_append, List.length_append,
       topN_merge (hitLt_strictTotal _)]
-  | .bucket b subs, hs, xs, ys => by
-    simp only [Agg.safe, Bool.and_eq_true] at hs
-    obtain ⟨hb, hsub⟩ := hs
+  | .bucket b subs, xs, ys => by
     simp only [collect, merge, finishSeg_eq]
     congr 1
     exact filter_raw_append h b b.minOf (BSpec.minOf_le b) (collectList subs) (mergeList subs)
-      (collectList_append h subs hsub) (mergeList_nil_nil subs) (mergeList_nil_left subs)
+      (collectList_append h subs) (mergeList_nil_nil subs) (mergeList_nil_left subs)
       (mergeList_nil_right subs) xs ys
 theorem collectList_append (h : StrictTotal (KOrd.lt (κ := κ))) :
-    ∀ (as : Aggs φ κ), as.safe = true → ∀ xs ys : List (Doc φ κ),
+    ∀ (as : Aggs φ κ), ∀ xs ys : List (Doc φ κ),
       collectList as (xs ++ ys) = mergeList as (collectList as xs) (collectList as ys)
-  | .nil, _, _, _ => by simp [collectList, mergeList]
-  | .cons a rest, hs, xs, ys => by
-    simp only [Aggs.safe, Bool.and_eq_true] at hs
-    simp only [collectList, mergeList, collect_append h a hs.1 xs ys,
-      collectList_append h rest hs.2 xs ys]
+  | .nil, _, _ => by simp [collectList, mergeList]
+  | .cons a rest, xs, ys => by
+    simp only [collectList, mergeList, collect_append h a xs ys,
+      collectList_append h rest xs ys]
 end
 
 /-! ## one segment: `finish` + `finalize_response` compute the reference -/
@@ -120,43 +116,40 @@ theorem finalizeList_nil (subs : Aggs φ κ) : finalizeList subs [] = [] := by
 
 mutual
 theorem finalize_collect (h : StrictTotal (KOrd.lt (κ := κ))) :
-    ∀ (a : Agg φ κ), a.safe = true → ∀ docs : List (Doc φ κ),
+    ∀ (a : Agg φ κ), ∀ docs : List (Doc φ κ),
       finalize a (collect a docs) = Spec.agg a docs
-  | .stats f m, _, docs => by simp only [collect, finalize, Spec.agg, collectStats_eq_spec]
-  | .extStats f m, _, docs => by simp only [collect, finalize, Spec.agg, collectStats_eq_spec]
-  | .valueCount f m, _, docs => by simp only [collect, finalize, Spec.agg]
-  | .cardKw f m, _, docs => by simp only [collect, finalize, Spec.agg]
-  | .cardNum f m, _, docs => by simp only [collect, finalize, Spec.agg]
-  | .percentiles f m ps, _, docs => by simp only [collect, finalize, Spec.agg]
-  | .ranks f m ts, _, docs => by simp only [collect, finalize, Spec.agg]
-  | .topHits size fromN sort, _, docs => by
+  | .stats f m, docs => by simp only [collect, finalize, Spec.agg, collectStats_eq_spec]
+  | .extStats f m, docs => by simp only [collect, finalize, Spec.agg, collectStats_eq_spec]
+  | .valueCount f m, docs => by simp only [collect, finalize, Spec.agg]
+  | .cardKw f m, docs => by simp only [collect, finalize, Spec.agg]
+  | .cardNum f m, docs => by simp only [collect, finalize, Spec.agg]
+  | .percentiles f m ps, docs => by simp only [collect, finalize, Spec.agg]
+  | .ranks f m ts, docs => by simp only [collect, finalize, Spec.agg]
+  | .topHits size fromN sort, docs => by
     simp only [collect, finalize, Spec.agg, hitsKeep_eq, window_of_topN]
-  | .bucket b subs, hs, docs => by
-    simp only [Agg.safe, Bool.and_eq_true] at hs
-    obtain ⟨hb, hsub⟩ := hs
+  | .bucket b subs, docs => by
     have hch : rawBuckets b (Spec.aggs subs) docs =
         (rawBuckets b (collectList subs) docs).map (onChildren (finalizeList subs)) := by
       rw [rawBuckets_map b _ _ (finalizeList_nil subs)]
-      exact rawBuckets_congr b _ _ (fun d => (finalizeList_collectList h subs hsub d).symm) docs
+      exact rawBuckets_congr b _ _ (fun d => (finalizeList_collectList h subs d).symm) docs
     have hpost : finalPost b (finishSeg b (rawBuckets b (collectList subs) docs)) =
         finalPost b (rawBuckets b (collectList subs) docs) := finalPost_finishSeg b _
-    simp only [collect, finalize, Spec.agg, specPost, rawBuckets_ideal hb]
+    simp only [collect, finalize, Spec.agg, specPost]
     rw [hch, finalPost_map, hpost]
     rfl
 theorem finalizeList_collectList (h : StrictTotal (KOrd.lt (κ := κ))) :
-    ∀ (as : Aggs φ κ), as.safe = true → ∀ docs : List (Doc φ κ),
+    ∀ (as : Aggs φ κ), ∀ docs : List (Doc φ κ),
       finalizeList as (collectList as docs) = Spec.aggs as docs
-  | .nil, _, _ => by simp [finalizeList, Spec.aggs]
-  | .cons a rest, hs, docs => by
-    simp only [Aggs.safe, Bool.and_eq_true] at hs
-    simp only [collectList, finalizeList, Spec.aggs, finalize_collect h a hs.1 docs,
-      finalizeList_collectList h rest hs.2 docs]
+  | .nil, _ => by simp [finalizeList, Spec.aggs]
+  | .cons a rest, docs => by
+    simp only [collectList, finalizeList, Spec.aggs, finalize_collect h a docs,
+      finalizeList_collectList h rest docs]
 end
 
 /-! ## the property -/
 
 /-- folding `merge` over the segments' intermediates gives the intermediate of all documents -/
-theorem mergeAll_collect (h : StrictTotal (KOrd.lt (κ := κ))) (a : Agg φ κ) (hs : a.safe = true)
+theorem mergeAll_collect (h : StrictTotal (KOrd.lt (κ := κ))) (a : Agg φ κ)
     (s₀ : List (Doc φ κ)) (rest : List (List (Doc φ κ))) :
     mergeAll a ((s₀ :: rest).map (collect a)) = some (collect a (s₀ ++ rest.flatten)) := by
   simp only [List.map_cons, mergeAll]
@@ -165,86 +158,141 @@ theorem mergeAll_collect (h : StrictTotal (KOrd.lt (κ := κ))) (a : Agg φ κ) 
   | nil => simp
   | cons s₁ rest ih =>
     simp only [List.map_cons, List.foldl_cons, List.flatten_cons]
-    rw [← collect_append h a hs, ih (s₀ ++ s₁), List.append_assoc]
+    rw [← collect_append h a, ih (s₀ ++ s₁), List.append_assoc]
 
-/-- **C12 (partial: `a.safe`)** — for every aggregation tree whose per-segment thresholds cannot
-lose information, every corpus and every way of spreading it over one or more segments, the
-response of the mechanism equals the reference computed over all matched live documents. -/
-theorem segmentation_independent_partial (h : StrictTotal (KOrd.lt (κ := κ))) (a : Agg φ κ)
-    (hs : a.safe = true) (s₀ : List (Doc φ κ)) (rest : List (List (Doc φ κ))) :
+/-- **C12** — for every aggregation tree, every corpus and every way of spreading it over one or
+more segments, the response of the mechanism equals the reference computed over all matched live
+documents. -/
+theorem segmentation_independent (h : StrictTotal (KOrd.lt (κ := κ))) (a : Agg φ κ)
+    (s₀ : List (Doc φ κ)) (rest : List (List (Doc φ κ))) :
     run a (s₀ :: rest) = some (Spec.agg a (s₀ ++ rest.flatten)) := by
   unfold run
-  rw [mergeAll_collect h a hs, Option.map_some, finalize_collect h a hs]
+  rw [mergeAll_collect h a, Option.map_some, finalize_collect h a]
 
 /-- two segmentations of the same document sequence give the same response -/
-theorem layouts_agree_partial (h : StrictTotal (KOrd.lt (κ := κ))) (a : Agg φ κ)
-    (hs : a.safe = true) (s₀ t₀ : List (Doc φ κ)) (rs rt : List (List (Doc φ κ)))
+theorem layouts_agree (h : StrictTotal (KOrd.lt (κ := κ))) (a : Agg φ κ)
+    (s₀ t₀ : List (Doc φ κ)) (rs rt : List (List (Doc φ κ)))
     (hflat : s₀ ++ rs.flatten = t₀ ++ rt.flatten) :
     run a (s₀ :: rs) = run a (t₀ :: rt) := by
-  rw [segmentation_independent_partial h a hs, segmentation_independent_partial h a hs, hflat]
+  rw [segmentation_independent h a, segmentation_independent h a, hflat]
 
 /-- `merge` is associative on the intermediates that can arise (collections of segments) -/
-theorem merge_assoc (h : StrictTotal (KOrd.lt (κ := κ))) (a : Agg φ κ) (hs : a.safe = true)
+theorem merge_assoc (h : StrictTotal (KOrd.lt (κ := κ))) (a : Agg φ κ)
     (xs ys zs : List (Doc φ κ)) :
     merge a (merge a (collect a xs) (collect a ys)) (collect a zs) =
       merge a (collect a xs) (merge a (collect a ys) (collect a zs)) := by
-  rw [← collect_append h a hs, ← collect_append h a hs, ← collect_append h a hs,
-    ← collect_append h a hs, List.append_assoc]
+  rw [← collect_append h a, ← collect_append h a, ← collect_append h a,
+    ← collect_append h a, List.append_assoc]
+
+/-! ## date_histogram: every bucket key is aligned -/
+
+def bucketsOf : Node κ → Buckets κ
+  | .buckets bs _ => bs
+  | _ => []
+
+/-- the keys a date_histogram request can produce — from a document value or from the bounds
+fill — are aligned: `k - offset = truncate (k - offset)` (calendar), `step ∣ k - offset` (fixed) -/
+theorem dhist_keys_aligned (f : φ) (iv : DInterval) (offset : Int) (m : Nat)
+    (ext hard : Option (Int × Int)) (missing : Option Int) (docs : List (Doc φ κ)) :
+    ∀ k ∈ docs.flatMap (keysOf (.dhist f iv offset m ext hard missing : BSpec φ κ)) ++
+        extraKeys (.dhist f iv offset m ext hard missing : BSpec φ κ),
+      ∃ n, k = Key.num n ∧ Aligned iv offset n := by
+  intro k hk
+  rcases List.mem_append.mp hk with hk | hk
+  · simp only [List.mem_flatMap, keysOf, List.mem_filterMap, Option.map_eq_some_iff] at hk
+    obtain ⟨_, _, v, _, n, hn, rfl⟩ := hk
+    exact ⟨n, rfl, aligned_dateBucket iv offset v n hn⟩
+  · simp only [extraKeys] at hk
+    split at hk
+    · rename_i lo hi _
+      split at hk
+      · rename_i a b ha hb
+        simp only [List.mem_map] at hk
+        obtain ⟨n, hn, rfl⟩ := hk
+        refine ⟨n, rfl, aligned_fillFrom iv offset _ _ _ ?_ n hn⟩
+        split
+        · exact aligned_dateBucket iv offset _ _ hb
+        · exact aligned_dateBucket iv offset _ _ ha
+      · simp at hk
+    · simp at hk
+
+/-- **bucket-key alignment** — every bucket of a date_histogram response, populated or created
+from the extended/hard bounds, for every segmentation, has a key `k` with
+`k - offset = truncate (k - offset)` (calendar intervals; for fixed intervals `k - offset` is a
+multiple of the step).  This is what 0b763bf repaired for the bounds fill
+(`legacy_date_histogram_fill_drops_offset`). -/
+theorem date_histogram_keys_aligned (h : StrictTotal (KOrd.lt (κ := κ))) (f : φ) (iv : DInterval)
+    (offset : Int) (m : Nat) (ext hard : Option (Int × Int)) (missing : Option Int)
+    (subs : Aggs φ κ) (s₀ : List (Doc φ κ)) (rest : List (List (Doc φ κ))) (resp : Node κ)
+    (hr : run (.bucket (.dhist f iv offset m ext hard missing) subs) (s₀ :: rest) = some resp) :
+    ∀ x ∈ bucketsOf resp, ∃ n, x.1 = Key.num n ∧ Aligned iv offset n := by
+  rw [segmentation_independent h] at hr
+  simp only [Option.some.injEq] at hr
+  subst hr
+  intro x hx
+  simp only [Spec.agg, specPost, finalPost, bucketsOf] at hx
+  have hx' := (List.mem_filter.mp hx).1
+  exact dhist_keys_aligned f iv offset m ext hard missing _ x.1
+    (mem_rawBuckets_key h _ _ _ x hx')
+
+/-- non-vacuity of `Aligned`: with a monthly interval and a one-hour offset, 1970-01-01T01:00 is
+aligned, 1970-01-01T00:00 and 1970-02-01T00:00 (what the legacy fill produced) are not -/
+example : Aligned (.calendar .month) 3600000 3600000 ∧ ¬ Aligned (.calendar .month) 3600000 0 ∧
+    ¬ Aligned (.calendar .month) 3600000 2678400000 := by
+  simp only [Aligned]
+  decide +kernel
 
 /-! ## merge is commutative on the intermediates that can arise -/
 
 mutual
 /-- the order in which two segments are merged does not matter (all kinds, every depth) -/
 theorem merge_comm (h : StrictTotal (KOrd.lt (κ := κ))) :
-    ∀ (a : Agg φ κ), a.safe = true → ∀ xs ys : List (Doc φ κ),
+    ∀ (a : Agg φ κ), ∀ xs ys : List (Doc φ κ),
       merge a (collect a xs) (collect a ys) = merge a (collect a ys) (collect a xs)
-  | .stats f m, _, xs, ys => by
+  | .stats f m, xs, ys => by
     simp only [collect, merge, collectStats_eq_spec, mergeStats_comm_spec]
-  | .extStats f m, _, xs, ys => by
+  | .extStats f m, xs, ys => by
     simp only [collect, merge, collectStats_eq_spec, mergeStats_comm_spec]
-  | .valueCount f m, _, xs, ys => by
+  | .valueCount f m, xs, ys => by
     simp only [collect, merge, Nat.add_comm]
-  | .cardKw f m, _, xs, ys => by
+  | .cardKw f m, xs, ys => by
     simp only [collect, merge]; rw [partSet_comm h]
-  | .cardNum f m, _, xs, ys => by
+  | .cardNum f m, xs, ys => by
     simp only [collect, merge]; rw [partSet_comm h]
-  | .percentiles f m ps, _, xs, ys => by
+  | .percentiles f m ps, xs, ys => by
     simp only [collect, merge]
     rw [sortBy_perm ratLt_strictTotal List.perm_append_comm]
-  | .ranks f m ts, _, xs, ys => by
+  | .ranks f m ts, xs, ys => by
     simp only [collect, merge]
     rw [sortBy_perm ratLt_strictTotal List.perm_append_comm]
-  | .topHits size fromN sort, _, xs, ys => by
+  | .topHits size fromN sort, xs, ys => by
     simp only [collect, merge, hitsKeep, Nat.add_comm xs.length]
     rw [sortBy_perm (hitLt_strictTotal _) List.perm_append_comm]
-  | .bucket b subs, hs, xs, ys => by
-    simp only [Agg.safe, Bool.and_eq_true] at hs
-    obtain ⟨hb, hsub⟩ := hs
+  | .bucket b subs, xs, ys => by
     simp only [collect, merge, finishSeg_eq]
     congr 1
     exact filter_raw_comm h b b.minOf (collectList subs) (mergeList subs)
-      (mergeList_comm h subs hsub) (mergeList_nil_left subs) (mergeList_nil_right subs) xs ys
+      (mergeList_comm h subs) (mergeList_nil_left subs) (mergeList_nil_right subs) xs ys
 theorem mergeList_comm (h : StrictTotal (KOrd.lt (κ := κ))) :
-    ∀ (as : Aggs φ κ), as.safe = true → ∀ xs ys : List (Doc φ κ),
+    ∀ (as : Aggs φ κ), ∀ xs ys : List (Doc φ κ),
       mergeList as (collectList as xs) (collectList as ys) =
         mergeList as (collectList as ys) (collectList as xs)
-  | .nil, _, _, _ => by simp [mergeList]
-  | .cons a rest, hs, xs, ys => by
-    simp only [Aggs.safe, Bool.and_eq_true] at hs
-    simp only [collectList, mergeList, merge_comm h a hs.1 xs ys, mergeList_comm h rest hs.2 xs ys]
+  | .nil, _, _ => by simp [mergeList]
+  | .cons a rest, xs, ys => by
+    simp only [collectList, mergeList, merge_comm h a xs ys, mergeList_comm h rest xs ys]
 end
 
 /-- swapping two adjacent segments does not change the response -/
-theorem swap_segments_partial (h : StrictTotal (KOrd.lt (κ := κ))) (a : Agg φ κ)
-    (hs : a.safe = true) (s₀ s₁ : List (Doc φ κ)) :
+theorem swap_segments (h : StrictTotal (KOrd.lt (κ := κ))) (a : Agg φ κ)
+    (s₀ s₁ : List (Doc φ κ)) :
     run a [s₀, s₁] = run a [s₁, s₀] := by
   simp only [run, List.map_cons, List.map_nil, mergeAll, List.foldl_cons, List.foldl_nil,
-    merge_comm h a hs s₀ s₁]
+    merge_comm h a s₀ s₁]
 
 end
 
 /-! ## the code before the repairs violated the full statement: kernel-checked witnesses
-(`Legacy.run`; the one witness about the current `run` is `date_histogram_fill_drops_offset`)
+(all about `Legacy.run`)
 
 Key atoms are `Nat` (string literals do not reduce in the kernel); `counts` projects a response
 to its (key, doc_count) list. -/
@@ -314,19 +362,20 @@ theorem legacy_composite_histogram_i64_empty :
 /-- date_histogram (calendar day) `min_doc_count = 2`: two values of the same day in different
 segments -/
 theorem legacy_date_histogram_min_doc_count_per_segment :
-    let a : Agg Unit Nat := .bucket (.dhist () (.calendar .day) 0 2 none none none false) .nil
+    let a : Agg Unit Nat := .bucket (.dhist () (.calendar .day) 0 2 none none none) .nil
     (Legacy.run a [[ndoc 0 [3600000]], [ndoc 1 [7200000]]]).map counts = some [] ∧
     counts (Spec.agg a [ndoc 0 [3600000], ndoc 1 [7200000]]) = [(Key.num 0, 2)] := by
   decide +kernel
 
 /-- date_histogram, calendar month, offset 1 h, extended bounds 1970-01-01 … 1970-02-10, no
-documents: the bounds fill of the code starts at 1969-12-01T01:00 and then steps to
-1970-01-01T00:00 and 1970-02-01T00:00 (`add_calendar` drops the time of day, i.e. the offset);
-the reference keeps the offset: 1970-01-01T01:00, 1970-02-01T01:00.  One segment suffices. -/
-theorem date_histogram_fill_drops_offset :
+documents: the bounds fill before 0b763bf started at 1969-12-01T01:00 and then stepped to
+1970-01-01T00:00 and 1970-02-01T00:00 (`add_calendar` dropped the time of day, i.e. the offset);
+the reference (and the code now) keeps the offset: 1970-01-01T01:00, 1970-02-01T01:00.  One
+segment suffices. -/
+theorem legacy_date_histogram_fill_drops_offset :
     let a : Agg Unit Nat :=
-      .bucket (.dhist () (.calendar .month) 3600000 0 (some (0, 86400000 * 40)) none none false) .nil
-    (run a [[]]).map counts =
+      .bucket (.dhist () (.calendar .month) 3600000 0 (some (0, 86400000 * 40)) none none) .nil
+    (Legacy.run a [[]]).map counts =
       some [(Key.num (-2674800000), 0), (Key.num 0, 0), (Key.num 2678400000, 0)] ∧
     counts (Spec.agg a []) =
       [(Key.num (-2674800000), 0), (Key.num 3600000, 0), (Key.num 2682000000, 0)] := by
@@ -336,7 +385,7 @@ theorem date_histogram_fill_drops_offset :
 (`with_month(4)` on the 31st fails before `with_day(1)` is applied); the reference counts it in
 the quarter starting 1970-04-01.  One segment suffices. -/
 theorem legacy_date_histogram_quarter_drops_may31 :
-    let a : Agg Unit Nat := .bucket (.dhist () (.calendar .quarter) 0 0 none none none false) .nil
+    let a : Agg Unit Nat := .bucket (.dhist () (.calendar .quarter) 0 0 none none none) .nil
     (Legacy.run a [[ndoc 0 [12960000000]]]).map counts = some [] ∧
     counts (Spec.agg a [ndoc 0 [12960000000]]) = [(Key.num 7776000000, 1)] := by
   decide +kernel
@@ -358,7 +407,7 @@ theorem legacy_top_hits_from_per_segment :
 
 example :
     let a : Agg Unit Nat := .bucket (.terms () none 2 none) .nil
-    a.safe = true ∧ (run a [[kdoc 0 [1]], [kdoc 1 [1]]]).map counts = some [(Key.str 1, 2)] := by
+    (run a [[kdoc 0 [1]], [kdoc 1 [1]]]).map counts = some [(Key.str 1, 2)] := by
   decide
 
 example :
@@ -369,46 +418,46 @@ example :
 
 example :
     let a : Agg Unit Nat := .bucket (.rare () 1 none) .nil
-    a.safe = true ∧ (run a [[kdoc 0 [1], kdoc 1 [1]], [kdoc 2 [1]]]).map counts = some [] := by
+    (run a [[kdoc 0 [1], kdoc 1 [1]], [kdoc 2 [1]]]).map counts = some [] := by
   decide
 
 example :
     let a : Agg Unit Nat := .topHits 1 1 [((), false)]
-    a.safe = true ∧
     (run a [[ndoc 0 [1], ndoc 1 [2]], [ndoc 2 [3], ndoc 3 [4]]]).map hitIds = some [1] := by
   decide +kernel
 
 example :
     let a : Agg Unit Nat := .bucket (.composite [.hist () 5 false] 10 none) .nil
-    a.safe = true ∧ (run a [[ndoc 0 [7]]]).map counts = some [(Key.parts [Part.num 5], 1)] := by
+    (run a [[ndoc 0 [7]]]).map counts = some [(Key.parts [Part.num 5], 1)] := by
   decide +kernel
 
 example :
-    let a : Agg Unit Nat := .bucket (.dhist () (.calendar .quarter) 0 2 none none none false) .nil
-    a.safe = true ∧
+    let a : Agg Unit Nat := .bucket (.dhist () (.calendar .quarter) 0 2 none none none) .nil
     (run a [[ndoc 0 [12960000000]], [ndoc 1 [12960000000]]]).map counts = some [(Key.num 7776000000, 2)] := by
   decide +kernel
 
-/-! ## non-vacuity: safe requests exist at depth 3 and the theorem computes on them -/
+/-! ## non-vacuity: the theorem computes on a depth-3 request -/
 
 /-- terms ▸ histogram ▸ stats, two segments: mechanism = reference, with non-trivial content -/
 example :
     let a : Agg Unit Nat := .bucket (.terms () none 1 none)
       (.cons (.bucket (.filter .tt) (.cons (.valueCount () none) .nil)) .nil)
-    a.safe = true ∧
     (run a [[kdoc 0 [1, 2]], [kdoc 1 [1]]]).map counts = some [(Key.str 1, 2), (Key.str 2, 1)] ∧
     (run a [[kdoc 0 [1, 2]], [kdoc 1 [1]]]).map counts =
       some (counts (Spec.agg a [kdoc 0 [1, 2], kdoc 1 [1]])) := by
   decide
 
-example : (Agg.bucket (BSpec.dhist () (.calendar .month) 3600000 0 (some (0, 1)) none none false)
-    Aggs.nil : Agg Unit Nat).safe = false := by
-  decide
+/-- the repaired fill on the input of `legacy_date_histogram_fill_drops_offset` -/
+example :
+    let a : Agg Unit Nat :=
+      .bucket (.dhist () (.calendar .month) 3600000 0 (some (0, 86400000 * 40)) none none) .nil
+    (run a [[]]).map counts =
+      some [(Key.num (-2674800000), 0), (Key.num 3600000, 0), (Key.num 2682000000, 0)] := by
+  decide +kernel
 
 /-- top_hits is inside the theorem: two segments, ascending by value -/
 example :
     let a : Agg Unit Nat := .topHits 2 0 [((), false)]
-    a.safe = true ∧
     (run a [[ndoc 0 [5], ndoc 1 [1]], [ndoc 2 [3]]]).map hitIds = some [1, 2] ∧
     hitIds (Spec.agg a [ndoc 0 [5], ndoc 1 [1], ndoc 2 [3]]) = [1, 2] := by
   decide +kernel
